@@ -417,8 +417,9 @@ def cmd_check(args):
             er["violations"] = er["violations"][:1]
             extra_results.append(er)
         EXTRA_EVIDENCE.clear()
-        if tier == "thorough" and all(r["status"] == "ok" for r in results):
-            EXTRA_EVIDENCE["proof_stability"] = proof_stability(results, rl, seed)
+        if tier == "thorough" and all(r["status"] in ("ok", "failed") for r in results):
+            # (a group whose only failures are listed known findings has status "failed": its stability is not re-measured)
+            EXTRA_EVIDENCE["proof_stability"] = proof_stability([r for r in results if r["status"] == "ok"], rl, seed)
             EXTRA_EVIDENCE["negative_controls"] = negative_controls(pid)
         hooks = list(pc.get("kani", [])) + (list(pc.get("thorough_kani", [])) if tier == "thorough" else [])
         for hook in hooks:
@@ -461,7 +462,7 @@ def negative_controls(pid):
     """thorough tier: every stored seeded change of this property (seeded/<pid>-m*/patch.diff; each breaks the property
     while the repo's own suite stays green) is applied to a scratch copy and the quick check must report a violation."""
     sdir = os.path.join(VERIF, "seeded")
-    seeds = sorted(d for d in os.listdir(sdir) if d.startswith(pid + "-m") and os.path.exists(os.path.join(sdir, d, "patch.diff"))) if os.path.isdir(sdir) else []
+    seeds = sorted(d for d in os.listdir(sdir) if d.startswith(pid + "-") and os.path.exists(os.path.join(sdir, d, "patch.diff"))) if os.path.isdir(sdir) else []
     def one(sd):
         d = tempfile.mkdtemp(prefix="vxneg.")
         try:
